@@ -17,7 +17,7 @@ ID = "C03"
 MAX_WORKERS = 4  # CP-SAT spawns its own threads
 RULE = (
     "Generated: non-flexible instance, durations >= 0 (zeros weighted up), "
-    "recirculation and irregular jobs; kind 'small' (<=9 ops quick, <=11 "
+    "recirculation and irregular jobs, half of them carrying metadata entries named like bounds that are not theirs; kind 'small' (<=9 ops quick, <=11 "
     "thorough; a share of them with 2**53 + 1 added to every positive duration, i.e. times not representable as a double): exact optimum from the independent exhaustive search; kind "
     "'history': 2-4 instances solved one after another by the SAME "
     "ORToolsSolver object, each result compared with a fresh solver's; kind "
@@ -156,9 +156,22 @@ def zero_tie(rows):
     return False
 
 
+def _with_metadata(inst):
+    """Instances carry free-form metadata; entries that look like bounds
+    (here deliberately not the instance's own) are information, not input."""
+    if inst.get("meta") or sum(len(r) for r in inst["durations"]) % 2:
+        return inst
+    job_lb, mach_lb = lower_bounds(inst)
+    out = dict(inst)
+    out["meta"] = {"lower_bound": max(job_lb, mach_lb) + 2, "upper_bound": 1, "optimum": 0}
+    return out
+
+
 def check_case(case, ctx):
     kind = case["kind"]
     insts = case["insts"]
+    if kind in ("small", "history", "large"):
+        insts = [_with_metadata(i) for i in insts]
     ctx.label("kind=" + kind)
     if kind == "limit":
         inst = insts[0]
